@@ -16,6 +16,13 @@
 (*   part  : blob label -> [meta: none|torn|ok, data: none|empty|full]           *)
 EXTENDS Integers, Sequences, FiniteSets, TLC
 
+\* Variant: "asis" = the order of effects of the code; the others are the ordering mistakes the property is about,
+\* kept as switches so that TLC shows each of them violating an invariant (checks/c12.py runs them in the thorough tier):
+\*   "manifest-first"       create / pull write the manifest before the blobs are in place
+\*   "delete-layers-first"  delete removes the layers before the manifest
+\*   "hardlink-copy"        copy links the manifest file instead of copying it (manifests are rewritten in place)
+CONSTANT Variant
+
 Ver(g, s, c) == [ok |-> TRUE, layers |-> <<g, s>>, cfg |-> c]
 Torn == [ok |-> FALSE, layers |-> <<>>, cfg |-> ""]
 BlobsOf(m) == IF m.ok THEN {m.layers[i] : i \in DOMAIN m.layers} \cup (IF m.cfg = "" THEN {} ELSE {m.cfg}) ELSE {}
@@ -26,7 +33,11 @@ Readable(st, n) == n \in DOMAIN st.man /\ st.man[n].ok
 NoPart == [meta |-> "none", data |-> "none"]
 PartOf(st, d) == IF d \in DOMAIN st.part THEN st.part[d] ELSE NoPart
 SetPart(st, d, p) == IF p = NoPart THEN [st EXCEPT !.part = Drop(@, d)] ELSE [st EXCEPT !.part = Put(@, d, p)]
-EmptyStore == [man |-> <<>>, blobs |-> {}, tmp |-> 0, part |-> <<>>]
+EmptyStore == [man |-> <<>>, blobs |-> {}, tmp |-> 0, part |-> <<>>, links |-> {}]
+\* names whose manifest file is the same inode as n's (hard links)
+Group(st, n) == IF \E g \in st.links : n \in g THEN CHOOSE g \in st.links : n \in g ELSE {n}
+PutAll(f, ks, v) == [x \in DOMAIN f \cup ks |-> IF x \in ks THEN v ELSE f[x]]
+Unlinked(st, n) == {g \ {n} : g \in st.links} \ {{}} 
 
 \* ---------------------------------------------------------------- effects
 \* an effect: [k: create|write|trunc|resize|rename|unlink|resume, o: tmp|blob|partmeta|partial|man, d: label or name, td: rename target]
@@ -48,9 +59,11 @@ Apply(st, e, ver) ==
     [] e.o = "partial" /\ e.k = "rename"  -> [SetPart(st, e.d, [PartOf(st, e.d) EXCEPT !.data = "none"]) EXCEPT !.blobs = @ \cup {e.td}]
     [] e.o = "blob" /\ e.k = "resume"     -> [SetPart(st, e.d, NoPart) EXCEPT !.blobs = @ \cup {e.d}]
     [] e.o = "blob" /\ e.k = "unlink"     -> [st EXCEPT !.blobs = @ \ {e.d}]
-    [] e.o = "man" /\ e.k \in {"create", "trunc"} -> [st EXCEPT !.man = Put(@, e.d, Torn)]
-    [] e.o = "man" /\ e.k = "write"       -> [st EXCEPT !.man = Put(@, e.d, ver)]
-    [] e.o = "man" /\ e.k = "unlink"      -> [st EXCEPT !.man = Drop(@, e.d)]
+    [] e.o = "man" /\ e.k \in {"create", "trunc"} -> [st EXCEPT !.man = PutAll(@, Group(st, e.d), Torn)]
+    [] e.o = "man" /\ e.k = "write"       -> [st EXCEPT !.man = PutAll(@, Group(st, e.d), ver)]
+    [] e.o = "man" /\ e.k = "unlink"      -> [st EXCEPT !.man = Drop(@, e.d), !.links = Unlinked(st, e.d)]
+    [] e.o = "man" /\ e.k = "link"        -> [st EXCEPT !.man = Put(@, e.d, st.man[e.td]),
+                                                        !.links = (Unlinked(st, e.d) \ {Group(st, e.td)}) \cup {Group(st, e.td) \cup {e.d}}]
     [] OTHER -> st
 
 RECURSIVE ApplyAll(_, _, _)
@@ -78,16 +91,28 @@ NewLayers(st, ds) == IF ds = <<>> THEN <<>> ELSE LET es == NewLayer(st, Head(ds)
 RECURSIVE Downloads(_, _)
 Downloads(st, ds) == IF ds = <<>> THEN <<>> ELSE LET es == Download(st, Head(ds)) IN es \o Downloads(ApplyAll(st, es, Torn), Tail(ds))
 
+\* the blobs of n's version that no other manifest refers to
+DelSet(st, n) == {d \in BlobsOf(st.man[n]) \cap st.blobs : \A x \in DOMAIN st.man \ {n} : d \notin BlobsOf(st.man[x])}
+RECURSIVE SetToSeq(_)
+SetToSeq(S) == IF S = {} THEN <<>> ELSE LET x == CHOOSE y \in S : TRUE IN <<x>> \o SetToSeq(S \ {x})
+
 Plan(st, op) ==
   CASE op.op = "createfiles" ->
          LET up == IF op.v.layers[1] \in st.blobs THEN <<>> ELSE NewLayer(st, op.v.layers[1])      \* POST /api/blobs/:digest
              s1 == ApplyAll(st, up, Torn)
              ls == NewLayers(s1, <<op.v.layers[2], op.v.cfg>>)
-         IN up \o ls \o WriteMan(st, op.n)
+         IN IF Variant = "manifest-first" THEN WriteMan(st, op.n) \o up \o ls ELSE up \o ls \o WriteMan(st, op.n)
     [] op.op = "createfrom" -> NewLayers(st, <<op.v.layers[2], op.v.cfg>>) \o WriteMan(st, op.n)
-    [] op.op = "copy"   -> WriteMan(st, op.n)
-    [] op.op = "delete" -> IF Readable(st, op.n) THEN <<E("unlink", "man", op.n)>> ELSE <<>>
-    [] op.op = "pull"   -> Downloads(st, <<op.v.layers[1], op.v.layers[2], op.v.cfg>>) \o WriteMan(st, op.n)
+    [] op.op = "copy"   -> IF Variant = "hardlink-copy"
+                           THEN (IF op.n \in DOMAIN st.man THEN <<E("unlink", "man", op.n)>> ELSE <<>>) \o <<[k |-> "link", o |-> "man", d |-> op.n, td |-> op.m]>>
+                           ELSE WriteMan(st, op.n)
+    [] op.op = "delete" -> IF ~Readable(st, op.n) THEN <<>>
+                           ELSE IF Variant = "delete-layers-first"
+                                  THEN [i \in 1..Cardinality(DelSet(st, op.n)) |-> E("unlink", "blob", SetToSeq(DelSet(st, op.n))[i])] \o <<E("unlink", "man", op.n)>>
+                           ELSE <<E("unlink", "man", op.n)>>
+    [] op.op = "pull"   -> IF Variant = "manifest-first"
+                           THEN WriteMan(st, op.n) \o Downloads(st, <<op.v.layers[1], op.v.layers[2], op.v.cfg>>)
+                           ELSE Downloads(st, <<op.v.layers[1], op.v.layers[2], op.v.cfg>>) \o WriteMan(st, op.n)
 
 \* blobs removed after the main effects: those of the replaced / deleted version nothing refers to any more
 PruneSet(pre, after, op, noPrune) ==
